@@ -53,6 +53,8 @@ def main():
     pid = wtname.rstrip("b")
     args = sys.argv[2:]
     check_ids = [pid]
+    no_check = "--no-check" in args
+    args = [a for a in args if a != "--no-check"]
     if "--check-ids" in args:
         k = args.index("--check-ids")
         check_ids = args[k + 1].split(",")
@@ -85,7 +87,7 @@ def main():
         res["demo_output_with_change"] = o1[-600:]
         res["confirmed"] = bool(ok0 and compiled and not (failed - KNOWN_FAIL) and passed >= 520 and ok1 is False)
         res["checks"] = {}
-        if res["confirmed"]:
+        if res["confirmed"] and not no_check:
             for cid in check_ids:
                 t0 = time.time()
                 rc, out = sh("./check %s --tier quick 2>&1" % cid, "/verif", timeout=7200, env={"VERIF_REPO": wt})
